@@ -1,6 +1,7 @@
 package main
 
 import (
+	"fmt"
 	"go/types"
 	"strings"
 
@@ -24,8 +25,14 @@ func (ex *Exec) spawn(st *State, fnv Value, args []Value) {
 
 func (ex *Exec) atomicOp(st *State, th *Thread, f *Frame, fn *ssa.Function, full string, args []Value, call *ssa.Call, isDefer bool) ([]*State, bool) {
 	name := lastName(full)
-	if len(fn.Blocks) > 0 && !strings.HasPrefix(full, "sync/atomic.") {
-		return nil, false // methods of atomic.Bool etc: interpret, they bottom out below
+	known := false
+	for _, p := range []string{"Load", "Store", "Add", "Swap", "CompareAndSwap", "And", "Or"} {
+		if strings.HasPrefix(name, p) {
+			known = true
+		}
+	}
+	if !strings.HasPrefix(full, "sync/atomic.") || !known {
+		return nil, false // methods of atomic.Bool etc and helpers: interpret, they bottom out here
 	}
 	ex.rep.Stubs["sync/atomic."+name+" (sequentially consistent)"] = true
 	ret := func(v Value) ([]*State, bool) {
@@ -34,7 +41,7 @@ func (ex *Exec) atomicOp(st *State, th *Thread, f *Frame, fn *ssa.Function, full
 	}
 	p, ok := args[0].(Ptr)
 	if !ok || p.Obj == 0 {
-		ex.doPanic(st, "atomic op on nil pointer")
+		ex.doPanic(st, "atomic op on nil pointer in "+full+" called from "+ex.site(f)+fmt.Sprintf(" arg=%T %v", args[0], fmtValue(args[0])))
 		return nil, true
 	}
 	switch {
